@@ -344,6 +344,36 @@ Proof.
   change (34 =? 34) with true. cbn iota. cbn [push]. reflexivity.
 Qed.
 
+(* ---- only ASCII changes: the bytes >= 0x80 of the argument are copied through in order and
+   every inserted byte is ASCII, so a valid UTF-8 argument gives valid UTF-8 text (the
+   String::from_utf8(..).unwrap() at the end of stringify_arg cannot fail) ---- *)
+Definition high (c : N) : bool := N.leb 128 c.
+
+Lemma high_table :
+  forallb (fun c => str_eqb (filter high (enc_byte c)) (filter high [c])) range256 = true.
+Proof. vm_compute. reflexivity. Qed.
+
+Lemma filter_high_enc_byte c : filter high (enc_byte c) = filter high [c].
+Proof.
+  destruct (N.lt_ge_cases c 256) as [Hlt | Hge].
+  - pose proof high_table as T. rewrite forallb_forall in T. apply str_eqb_eq.
+    exact (T c (in_range256 c Hlt)).
+  - assert (E0 : 0 <? esc_of c = false) by (rewrite (esc_of_high c Hge); reflexivity).
+    rewrite (enc_byte_zero c E0). reflexivity.
+Qed.
+
+Lemma stringify_high_bytes q a : filter high (stringify_arg q a) = filter high a.
+Proof.
+  rewrite stringify_arg_spec.
+  assert (H : filter high (enc_bytes a) = filter high a).
+  { induction a as [ | c a IH ]; [ reflexivity | ].
+    rewrite enc_bytes_cons, filter_app, filter_high_enc_byte, IH.
+    change (c :: a) with ([c] ++ a). rewrite filter_app. reflexivity. }
+  destruct q.
+  - rewrite !filter_app, H. change (filter high [DQUOTE]) with (@nil N). rewrite app_nil_r. reflexivity.
+  - cbn [app]. rewrite app_nil_r. exact H.
+Qed.
+
 (* ---- the argument list of an invocation ---- *)
 
 (* L0: lit {", " lit} ")" *)
@@ -1126,3 +1156,126 @@ Proof. vm_compute. reflexivity. Qed.
 Example line_separator_raw :
   stringify_arg true [226; 128; 168] = [34; 226; 128; 168; 34].
 Proof. vm_compute. reflexivity. Qed.
+
+(* ------------------------------------------------------------------------------------------ *)
+(** * H. outside F25's class (an injection evaluated on an empty visited list) the collected set
+      is closed under dependencies and wholly gated by the rule's own mask *)
+
+(* every dependency name of r resolves, passes the gate of [mask], and is (by canonical name) in p *)
+Definition deps_in (st : store) (mask : N) (r : resource) (p : list resource) : Prop :=
+  forall d, In d (r_deps r) ->
+            exists r', get_permissioned_resource st d mask = SOk r' /\ has_name (r_name r') p = true.
+
+Definition closed_new (st : store) (mask : N) (prev p : list resource) : Prop :=
+  forall r, In r p -> In r prev \/ deps_in st mask r p.
+
+Lemma deps_in_incl st mask r p q : incl p q -> deps_in st mask r p -> deps_in st mask r q.
+Proof.
+  intros Hi H d Hd. destruct (H d Hd) as (r' & Hg & Hn). exists r'. split; [ exact Hg | ].
+  exact (has_name_incl _ _ _ Hi Hn).
+Qed.
+
+Lemma closed_new_trans st mask a b c :
+  closed_new st mask a b -> closed_new st mask b c -> incl b c -> closed_new st mask a c.
+Proof.
+  intros Hab Hbc Hi r Hr. destruct (Hbc r Hr) as [Hb | Hc]; [ | right; exact Hc ].
+  destruct (Hab r Hb) as [Ha | Hc]; [ left; exact Ha | right ].
+  exact (deps_in_incl _ _ _ _ _ Hi Hc).
+Qed.
+
+Definition dfs_post (st : store) (mask : N) (d : str) (p q : list resource) : Prop :=
+  incl p q /\ closed_new st mask p q /\
+  exists r', get_permissioned_resource st d mask = SOk r' /\ has_name (r_name r') q = true.
+
+Lemma fold_dfs st mask step :
+  (forall d p q, step d p = (q, None) -> dfs_post st mask d p q) ->
+  forall ds p q, fold_deps step ds p = (q, None) ->
+    incl p q /\ closed_new st mask p q /\
+    forall d, In d ds -> exists r', get_permissioned_resource st d mask = SOk r' /\
+                                    has_name (r_name r') q = true.
+Proof.
+  intros Hstep. induction ds as [ | d ds IH ]; intros p q H; cbn [fold_deps] in H.
+  - injection H as <-. split; [ apply incl_refl | ]. split; [ intros r Hr; left; exact Hr | intros d [] ].
+  - destruct (step d p) as [p1 e] eqn:Es. destruct e as [ e | ]; [ discriminate H | ].
+    destruct (Hstep d p p1 Es) as (Hi1 & Hc1 & r' & Hg & Hn).
+    destruct (IH p1 q H) as (Hi2 & Hc2 & Hall).
+    split; [ eapply incl_tran; eassumption | ].
+    split; [ eapply closed_new_trans; eassumption | ].
+    intros d' [<- | Hd'].
+    + exists r'. split; [ exact Hg | exact (has_name_incl _ _ _ Hi2 Hn) ].
+    + apply Hall. exact Hd'.
+Qed.
+
+Lemma has_name_In r p : In r p -> has_name (r_name r) p = true.
+Proof.
+  intros H. unfold has_name. apply existsb_exists. exists r. split; [ exact H | apply str_eqb_refl ].
+Qed.
+
+Lemma rec_deps_dfs : forall fuel st mask d p q,
+  recursive_dependencies fuel st d p mask = (q, None) -> dfs_post st mask d p q.
+Proof.
+  induction fuel as [ | f IH ]; intros st mask d p q H; cbn [recursive_dependencies] in H;
+    [ discriminate H | ].
+  destruct (get_permissioned_resource st d mask) as [ r0 | e ] eqn:Eg; [ | discriminate H ].
+  destruct (has_name (r_name r0) p) eqn:Eh.
+  - injection H as <-. split; [ apply incl_refl | ]. split; [ intros r Hr; left; exact Hr | ].
+    exists r0. split; [ exact Eg | exact Eh ].
+  - destruct (fold_dfs st mask (fun d p => recursive_dependencies f st d p mask)
+                (fun d0 p0 q0 => IH st mask d0 p0 q0) _ _ _ H) as (Hi & Hc & Hall).
+    assert (Hr0 : In r0 q) by (apply Hi; apply in_or_app; right; left; reflexivity).
+    split; [ eapply incl_tran; [ apply incl_appl; apply incl_refl | exact Hi ] | ].
+    split.
+    + intros r Hr. destruct (Hc r Hr) as [Hp | Hd]; [ | right; exact Hd ].
+      apply in_app_or in Hp as [Hp | [<- | []]]; [ left; exact Hp | right; exact Hall ].
+    + exists r0. split; [ exact Eg | apply has_name_In; exact Hr0 ].
+Qed.
+
+(* An injection evaluated alone: when it succeeds, the collected set S = deps' is closed under
+   dependencies (every dependency name of every member resolves, by canonical name, to a member),
+   every member passed the gate of this rule's own mask, and the scriptlet's own dependencies are
+   in S.  So the scriptlet and ALL its transitive dependencies were granted by this rule's list. *)
+Lemma closure_gate_alone st text mask deps' inv :
+  get_scriptlet_resource st text mask [] = (deps', SOk inv) ->
+  exists name args r0,
+    parse_scriptlet_args text = Some (name :: args) /\
+    get_internal_resource st (with_js_extension name) = Some r0 /\
+    perm_ok mask r0 /\
+    deps_in st mask r0 deps' /\
+    forall r, In r deps' -> In r (st_res st) /\ perm_ok mask r /\ deps_in st mask r deps'.
+Proof.
+  intros H. pose proof (scriptlet_deps_gate st text mask []) as G. rewrite H in G. cbn [fst] in G.
+  revert H. unfold get_scriptlet_resource.
+  destruct (parse_scriptlet_args text) as [ [ | name args ] | ]; try discriminate.
+  destruct (object_syntax args); [ discriminate | ].
+  destruct (get_permissioned_resource st (with_js_extension name) mask) as [ r0 | e ] eqn:Eg;
+    [ | discriminate ].
+  destruct (negb (c18_supports_scriptlet_injection (r_kind r0))); [ discriminate | ].
+  destruct (fold_deps _ (r_deps r0) []) as [deps1 e] eqn:Ef.
+  destruct e as [ e | ]; [ discriminate | ].
+  destruct (fold_dfs st mask (fun d p => recursive_dependencies (dep_fuel st) st d p mask)
+              (fun d0 p0 q0 => rec_deps_dfs (dep_fuel st) st mask d0 p0 q0) _ _ _ Ef) as (_ & Hc & Hall).
+  destruct (get_permissioned_ok _ _ _ _ Eg) as (Hint & Hin0 & Hok0).
+  assert (Hgate : forall r, In r deps' -> In r (st_res st) /\ perm_ok mask r).
+  { intros r Hr. destruct (G r Hr) as [[] | Hx]. exact Hx. }
+  destruct (r_decoded r0) as [ | | template ]; try discriminate.
+  destruct (r_fname r0) as [ fname | ]; intros H; injection H as <- <-;
+    exists name, args, r0; (split; [ reflexivity | split; [ exact Hint | split; [ exact Hok0 | ] ] ]).
+  - destruct (has_name (r_name r0) deps1) eqn:Eh.
+    + split; [ exact Hall | ]. intros r Hr. destruct (Hgate r Hr) as [Ha Hb].
+      split; [ exact Ha | split; [ exact Hb | ] ].
+      destruct (Hc r Hr) as [[] | Hd]. exact Hd.
+    + assert (Hi : incl deps1 (deps1 ++ [r0])) by (apply incl_appl; apply incl_refl).
+      split; [ exact (deps_in_incl _ _ _ _ _ Hi Hall) | ].
+      intros r Hr. destruct (Hgate r Hr) as [Ha Hb]. split; [ exact Ha | split; [ exact Hb | ] ].
+      apply in_app_or in Hr as [Hr | [<- | []]].
+      * destruct (Hc r Hr) as [[] | Hd]. exact (deps_in_incl _ _ _ _ _ Hi Hd).
+      * exact (deps_in_incl _ _ _ _ _ Hi Hall).
+  - split; [ exact Hall | ]. intros r Hr. destruct (Hgate r Hr) as [Ha Hb].
+    split; [ exact Ha | split; [ exact Hb | ] ].
+    destruct (Hc r Hr) as [[] | Hd]. exact Hd.
+Qed.
+
+Example closure_gate_alone_ex :
+  exists deps' inv, get_scriptlet_resource ex_store (bs "alias-s, x") 1 [] = (deps', SOk inv) /\
+                    map r_name deps' = [bs "d1.fn"; bs "s.js"; bs "d2.fn"].
+Proof. eexists. eexists. vm_compute. split; reflexivity. Qed.
